@@ -283,7 +283,7 @@ def C09(t, m, ctx):
                 while True:
                     res = t.paginate_webentity_pages(w, ps, page_count=k, pagination_token=tok, crawled_only=crawled_only)
                     calls += 1
-                    expect(calls < 1000, "C09: pagination does not terminate", w)
+                    expect(calls < 150, "C09: pagination does not terminate (150 calls for one listing)", w)
                     acc += [x["lru"] for x in res["pages"]]
                     expect(res["count"] == len(res["pages"]), "C09: count differs from content", repr(res))
                     expect(res["count_crawled"] == sum(1 for x in res["pages"] if x["crawled"]), "C09: count_crawled", repr(res))
@@ -316,7 +316,7 @@ def C10(t, m, ctx):
                 while True:
                     res = t.paginate_webentity_pagelinks(w, ps, include_internal=bool(ii), include_outbound=bool(io), source_page_count=k, pagination_token=tok)
                     calls += 1
-                    expect(calls < 1000, "C10: pagination does not terminate", w)
+                    expect(calls < 150, "C10: pagination does not terminate (150 calls for one listing)", w)
                     acc += res["pagelinks"]
                     expect(res["count_pagelinks"] == len(res["pagelinks"]), "C10: count_pagelinks", repr(res))
                     expect(res["count_sourcepages"] == len(set(a for a, _, _ in res["pagelinks"])), "C10: count_sourcepages differs from content", repr(res))
